@@ -750,3 +750,66 @@ Proof.
 Qed.
 
 End Apply.
+
+(* END TO END: Pool.map(f, l, chunksize) on a pool of p workers, for a non-empty
+   input: _map_async cuts l into batches that concatenate to l and, whatever the
+   permutation in which the batch results mapstar(f, batch_i) come back, get()
+   returns exactly map f l. *)
+Theorem map_end_to_end {A B E : Type} (none : B) (f : A -> B) (l : list A)
+        (cs : option Z) (p : Z) (d : bool) (H : list nat) :
+    l <> [] -> (cs = None -> 1 <= p) -> (forall c, cs = Some c -> 1 <= c) ->
+    exists (k : nat) (batches : list (list A)) (st0 : mres B E),
+      map_async none l cs p = Some (Z.of_nat k, Some batches, st0) /\
+      concat batches = l /\
+      (Permutation H (seq 0 (length batches)) ->
+       let msgs := map (fun i => (if d then MDeliver else MSet)
+                                   (MOk (Z.of_nat i) (mapstar f (nth i batches [])))) H in
+       map_get (fst (map_run st0 msgs)) = OList (map f l) /\
+       m_cb (fst (map_run st0 msgs)) = [] /\ m_success (fst (map_run st0 msgs)) = true).
+Proof.
+  intros Hl Hp Hc.
+  destruct (map_async_resolves (E := E) none l cs p Hl Hp Hc) as (k & Hk & _ & Hasync).
+  exists k, (chunks l k), (map_init none (Z.of_nat (length l)) (Z.of_nat k) false false).
+  split; [exact Hasync|]. split; [apply chunks_concat; exact Hk|].
+  intros Hperm. cbv zeta.
+  assert (Hnd : NoDup H).
+  { apply (Permutation_NoDup (l := seq 0 (length (chunks l k)))).
+    - apply Permutation_sym. exact Hperm.
+    - apply seq_NoDup. }
+  assert (Hb : forall x, In x H -> (x < length (chunks l k))%nat).
+  { intros x Hx. apply (Permutation_in _ Hperm) in Hx. apply in_seq in Hx. lia. }
+  assert (Hlen : length H = length (chunks l k)).
+  { rewrite (Permutation_length Hperm). apply seq_length. }
+  pose proof (map_any_order (E := E) none f l k Hk false false d H Hnd Hb) as Hm.
+  cbv zeta in Hm. unfold map_msgs, chunk_result in Hm. unfold mapstar.
+  destruct Hm as (_ & _ & Hs & Hr & _ & Hcb & _ & _ & Hg).
+  assert (Hpos : (0 < length (chunks l k))%nat).
+  { apply chunks_index_lt; [exact Hk|]. destruct l; [contradiction|cbn; lia]. }
+  rewrite Hr in Hg, Hcb. rewrite Hlen in Hg, Hcb.
+  replace (0 <? length (chunks l k))%nat with true in * by (symmetry; apply Nat.ltb_lt; exact Hpos).
+  rewrite Nat.eqb_refl in *. cbn [andb] in *.
+  split; [exact Hg|]. split; [exact Hcb|exact Hs].
+Qed.
+
+(* an ApplyResult keeps its first outcome: later results change nothing *)
+Theorem apply_first_outcome_kept {A E : Type} (st : ares A E) (ops : list (aop A E)) :
+    a_ready st = true ->
+    let st' := fst (apply_run st ops) in
+    a_ready st' = true /\ a_value st' = a_value st /\ a_cb st' = a_cb st /\ a_ecb st' = a_ecb st /\
+    apply_get st' = apply_get st.
+Proof.
+  revert st. induction ops as [|o ops IH]; intros st Hr; cbn [apply_run fst].
+  - repeat split. exact Hr.
+  - assert (Hstep : a_ready (fst (apply_op st o)) = true /\
+                    a_value (fst (apply_op st o)) = a_value st /\
+                    a_cb (fst (apply_op st o)) = a_cb st /\ a_ecb (fst (apply_op st o)) = a_ecb st).
+    { destruct o as [b|b| |]; cbn [apply_op fst]; unfold apply_set; rewrite ?Hr;
+        try (destruct (a_incache st)); cbn [fst apply_ack a_ready a_value a_cb a_ecb];
+        rewrite ?Hr; repeat split; reflexivity. }
+    destruct (apply_op st o) as [s x]. cbn [fst] in Hstep.
+    destruct Hstep as (H1 & H2 & H3 & H4). specialize (IH s H1). cbv zeta in IH.
+    destruct (apply_run s ops) as [s2 xs]. cbn [fst] in *.
+    destruct IH as (I1 & I2 & I3 & I4 & I5).
+    split; [exact I1|]. split; [congruence|]. split; [congruence|]. split; [congruence|].
+    rewrite I5. unfold apply_get. rewrite H1, H2, Hr. reflexivity.
+Qed.
